@@ -60,8 +60,11 @@ def shipped_case(ctx):
   return {}
 
 
-def build_recipe(rng, qt, src):
-  """Random update/load sequence through the public API.  Returns descriptors of what was tried."""
+def build_recipe(rng, qt, src, twin=None):
+  """Random update/load sequence through the public API.  Returns descriptors of what was tried.
+
+  `qt` is also OBSERVED between the updates (export, need_calibration); `twin` receives the same updates and loads
+  but is never observed before the end: reading the recipe must not change what is read later."""
   names = recipes.output_names(src)
   ops = recipes.op_names_in(src) or ['FULLY_CONNECTED']
   tried = []
@@ -87,16 +90,38 @@ def build_recipe(rng, qt, src):
     else:
       alg, cfg = recipes.CFGS[name]
     as_str = rng.random() < 0.3
-    try:
-      if rng.random() < 0.12 and tried:
-        qt.load_quantization_recipe(recipes.json_recipe(qt.get_quantization_recipe()))  # load of own export
+    def both(fn):
+      """The same step on the observed Quantizer and (errors ignored there) on the never-observed twin."""
+      try:
+        fn(qt)
+        return None
+      except ValueError:
+        return 'rejected'
+      except Exception as e:  # pylint: disable=broad-except
+        tried.append(('raised', type(e).__name__, str(e)[:80]))
+        return 'raised'
+      finally:
+        if twin is not None:
+          try:
+            fn(twin)
+          except Exception:  # pylint: disable=broad-except
+            pass
+    if rng.random() < 0.12 and tried:
+      if both(lambda q: q.load_quantization_recipe(recipes.json_recipe(q.get_quantization_recipe()))) is None:
         tried.append(('load_own_export',))
-      qt.update_quantization_recipe(rx, sel if as_str else OP(sel), cfg, alg if as_str else aeq.AlgorithmName(alg))
+    if both(lambda q: q.update_quantization_recipe(rx, sel if as_str else OP(sel), copy.deepcopy(cfg),
+                                                   alg if as_str else aeq.AlgorithmName(alg))) is None:
       tried.append((rx, sel, name, 'str' if as_str else 'enum'))
-    except ValueError:
-      pass
-    except Exception as e:  # pylint: disable=broad-except
-      tried.append(('raised', type(e).__name__, str(e)[:80]))
+    if twin is not None and rng.random() < 0.35:
+      try:
+        if rng.random() < 0.6:
+          qt.get_quantization_recipe()
+          tried.append(('observe_export',))
+        else:
+          _ = qt.need_calibration
+          tried.append(('observe_need_calibration',))
+      except Exception as e:  # pylint: disable=broad-except
+        tried.append(('observe_raised', type(e).__name__))
   return tried
 
 
@@ -110,8 +135,19 @@ def run_case(ctx, case, rng):
     return {'outcome': 'skipped', 'reason': 'generator_reject'}
   src = models.read(spec.content)
   qt = aeq.Quantizer(spec.content)
-  tried = build_recipe(rng, qt, src)
+  twin = aeq.Quantizer(spec.content)
+  tried = build_recipe(rng, qt, src, twin)
   rec = qt.get_quantization_recipe()
+  if any(t[0].startswith('observe_') for t in tried if t and isinstance(t[0], str)):
+    ctx.count('histories_with_observations_between_updates')
+    try:
+      same = recipes.json_recipe(rec) == recipes.json_recipe(twin.get_quantization_recipe())
+    except Exception:  # pylint: disable=broad-except
+      same = True
+    if not same:
+      ctx.violation('export_depends_on_earlier_observations', {},
+                    {'tried': tried, 'observed': recipes.json_recipe(rec),
+                     'never_observed_twin': recipes.json_recipe(twin.get_quantization_recipe())})
   if not rec:
     return {'outcome': 'skipped', 'reason': 'empty_recipe'}
   ctx.count('recipes')
